@@ -92,6 +92,7 @@ def catalogue():
     c["list-list"] = ({"k": "List", "o": {"default": [[1], []]}}, [[[1, [2]], D(("a", [None]))], [[1.5, "s"]]], ["x"])
     c["str-strip-case-min"] = ({"k": "Str", "o": {"transform_strip": "x", "transform_case": "lower", "min_len": 3, "max_len": 5}},
                                ["abc", "xAbCdx"], ["XabX", "ab", "xXx", 5])
+    c["str-max0"] = ({"k": "Str", "o": {"max_len": 0, "min_len": 0, "default": ""}}, [""], ["a", " ", 0])   # 0 is a bound, not "no bound"
     c["str-upper-max"] = ({"k": "Str", "o": {"transform_case": "upper", "max_len": 6}}, ["ABC", "def"], ["stra\u00dfe", "toolong"])
     c["list-int-v"] = ({"k": "List", "item": {"k": "Int", "o": {"min": 0, "max": 9}}, "o": {"validator": "sum<10", "default": [1]}},
                        [[2, 3], ["4"]], [[5, 6], [9, "1"], [10]])
@@ -153,7 +154,7 @@ def option_leaves():
 
 def quick_leaves():
     return ["str-norm", "str-regex-req", "int09", "int-req", "bool", "net", "bytes", "challenge", "list-int", "list-str-req",
-            "dict-typed", "any", "float", "host", "str-req-nodflt", "str-strip-case-min", "str-upper-max", "list-int-v", "int-even", "dict-typed-v", "bool-t", "int-dflt-nonzero", "str-dflt", "port@v", "loglevel@v", "net@v", "float@v", "list-int@iv", "dict-typed@vv"]
+            "dict-typed", "any", "float", "host", "str-req-nodflt", "str-strip-case-min", "str-upper-max", "str-max0", "list-int-v", "int-even", "dict-typed-v", "bool-t", "int-dflt-nonzero", "str-dflt", "port@v", "loglevel@v", "net@v", "float@v", "list-int@iv", "dict-typed@vv"]
 
 
 # ---------------------------------------------------------------------------------------------
